@@ -52,6 +52,10 @@ func (fr *Frame) exec(in ssa.Instruction) {
 			}()
 			z = ZeroOf(elem)
 		}()
+		if _, isSig := elem.Underlying().(*types.Signature); isSig {
+			fr.set(x, PtrV{Cell: c, Elem: elem})
+			return
+		}
 		if z == nil {
 			fr.opaque(x, "alloc of unsupported type "+elem.String())
 			return
@@ -67,6 +71,13 @@ func (fr *Frame) exec(in ssa.Instruction) {
 				return // store into ignored (opaque) memory, e.g. varargs of fmt.Errorf
 			}
 			ex.oos("%s: store through non-local pointer at %s", shortName(fr.fn.String()), fr.pos(in))
+			return
+		}
+		if fv, isF := val.(FuncV); isF && len(p.Path) == 0 {
+			if fr.ex.funcCells == nil {
+				fr.ex.funcCells = map[*Cell]FuncV{}
+			}
+			fr.ex.funcCells[p.Cell] = fv
 			return
 		}
 		t, ok := fr.term(val)
@@ -167,6 +178,28 @@ func (fr *Frame) exec(in ssa.Instruction) {
 			fr.set(x, TV{IntC(int64(1000 + ex.errSite)), x.Type()})
 			return
 		}
+		if us := unionSort(x.Type()); us != nil {
+			if uc := unionCaseFor(us, x.X.Type()); uc != nil {
+				var val *Term
+				switch d := fr.get(x.X).(type) {
+				case PtrV:
+					val = fr.load(d)
+				case ValPtr:
+					val = d.Root
+				case TV:
+					if _, isP := x.X.Type().Underlying().(*types.Pointer); isP {
+						fr.safety(x, "nil", Not(PtrIsNil(d.T)))
+						val = PtrVal(d.T)
+					} else {
+						val = d.T
+					}
+				}
+				if val != nil && val.Sort == uc.Ctor.Fields[0].Sort {
+					fr.set(x, TV{MkCtor(uc.Ctor, val), x.Type()})
+					return
+				}
+			}
+		}
 		fr.set(x, IfaceV{Dyn: fr.get(x.X), DynTyp: x.X.Type(), Typ: x.Type()})
 	case *ssa.ChangeInterface:
 		fr.set(x, fr.get(x.X))
@@ -249,6 +282,14 @@ func (fr *Frame) execUnOp(x *ssa.UnOp) {
 	case token.MUL: // load
 		switch p := v.(type) {
 		case PtrV:
+			if _, isSig := x.Type().Underlying().(*types.Signature); isSig {
+				if fv, ok := fr.ex.funcCells[p.Cell]; ok && len(p.Path) == 0 {
+					fr.set(x, fv)
+					return
+				}
+				fr.opaque(x, "load of unknown function value")
+				return
+			}
 			t := fr.load(p)
 			fr.set(x, TV{Typed(t, x.Type()), x.Type()})
 		case ValPtr:
@@ -638,6 +679,29 @@ func (fr *Frame) mapVersion(v ssa.Value, t *Term) {}
 
 func (fr *Frame) execTypeAssert(x *ssa.TypeAssert) {
 	v := fr.get(x.X)
+	if tv, ok := v.(TV); ok && unionCases[tv.T.Sort] != nil {
+		if uc := unionCaseFor(tv.T.Sort, x.AssertedType); uc != nil {
+			is := IsCtor(uc.Ctor, tv.T)
+			payload := Typed(SelField(uc.Ctor, 0, tv.T), uc.Elem)
+			var res Val
+			if _, isP := x.AssertedType.Underlying().(*types.Pointer); isP {
+				res = TV{PtrRef(PtrSort(uc.Elem), payload), x.AssertedType}
+			} else {
+				res = TV{payload, x.AssertedType}
+			}
+			if x.CommaOk {
+				// on failure Go yields the zero value
+				if rt, ok := res.(TV); ok {
+					res = TV{Ite(is, rt.T, ZeroOf(x.AssertedType)), x.AssertedType}
+				}
+				fr.set(x, TupleV{res, TV{is, types.Typ[types.Bool]}})
+			} else {
+				fr.safety(x, "typeassert", is)
+				fr.set(x, res)
+			}
+			return
+		}
+	}
 	iv, ok := v.(IfaceV)
 	if !ok {
 		fr.opaque(x, "type assert on symbolic interface")
